@@ -15,6 +15,9 @@ CHECKS = {
  'C03': dict(level='model_checking', engine='seqmc', technique='exhaustive enumeration of histories with foreign files planted at every path role; model-free before/after monitor on every API call of the implementation',
    text='Around every build (committed or rolled back) and clean of every history in the bounded space, every regular file outside the managed set (cache file, paths passed to build_file in this call, recorded previous outputs) must keep inode, bytes and mtime, every directory that disappears must have been created by a build and have held nothing foreign, and after a rolled-back build every file that existed before must be back. Foreign files are planted inside every existing directory, at every output position and as file<->directory replacements; programs that nest an output below another output are included.',
    note='The monitor uses no model; the managed set of previous outputs comes from the reference model record, which is validated by tree equality on every committed build.', design='4/C03'),
+ 'C04': dict(level='model_checking', engine='seqmc', technique='exhaustive enumeration of (program point, query kind, path) on the implementation; answers compared with the reference model plus model-free consistency laws',
+   text='Every query kind x every path of the universe is asked at every program point (before/inside/after nested build_file calls in all five modes) of every program of the bounded space, on every prior state the sweep reaches, in two regimes: full batteries everywhere, and one single probe query with nobody having looked before. Each answer (value or OSError subclass) must equal the reference model and the answers of each battery must satisfy the consistency laws (exists = is_file or is_dir, list_dir = existing children, walk agrees recursively, parents of existing paths are directories, error classes).',
+   note='Latitudes: get_size of a directory is only required not to raise; order inside list_dir/walk results is normalised by sorting (walk top-down order is checked separately); directories that only hold the cache file are not observed.', design='4/C04'),
 }
 NOT_YET = {}
 props = [json.loads(l)['id'] for l in open(V + '/properties.jsonl')]
